@@ -149,7 +149,8 @@ func verifStreamItems(sc verifStreamScn) []verifStreamItem {
 		switch sc.Cls {
 		case "ascii":
 			it.Args = verifStreamCanon(map[string]any{"city": fmt.Sprintf("Paris %d", j), "days": j + 2,
-				"opts": map[string]any{"units": []any{"c", "f"}, "deep": true}})
+				"order": json.Number("9007199254740993"), // an integer no float64 holds
+				"opts":  map[string]any{"units": []any{"c", "f"}, "deep": true}})
 		case "uni":
 			it.Args = verifStreamCanon(map[string]any{"q": fmt.Sprintf("café %d ✓ 世界 \U0001F600 \"q\" a\\b\nline", j)})
 		case "empty":
@@ -623,8 +624,13 @@ func verifStreamRunBuffered(tr *Translator, sc verifStreamScn, items []verifStre
 		b.Emit("Buffered", "ok", false, "mtype", "unmarshalable", "role", "", "blocks", []verifStreamItem{}, "stop", "", "uin", 0, "uout", 0)
 		return
 	}
+	// (the content once more with numbers kept as written: a tool argument is these digits, not the nearest double)
+	var mn map[string]any
+	dn := json.NewDecoder(bytes.NewReader(raw))
+	dn.UseNumber()
+	_ = dn.Decode(&mn)
 	blocks := []verifStreamItem{}
-	cs, _ := m["content"].([]any)
+	cs, _ := mn["content"].([]any)
 	for _, c := range cs {
 		cb, _ := c.(map[string]any)
 		ty, _ := cb["type"].(string)
